@@ -12,6 +12,7 @@ import (
 	"go/token"
 	"go/types"
 	"math"
+	"os"
 	"strconv"
 	"strings"
 
@@ -400,7 +401,7 @@ func (ev *evaluator) eval(fr *evalFrame, v ssa.Value, depth int) (interface{}, b
 				if found {
 					return v, true
 				}
-				return zeroOf(lk.X.Type().Underlying().(*types.Map).Elem())
+				return zeroValue(lk.X.Type().Underlying().(*types.Map).Elem())
 			}
 		}
 		// the value / ok of a comma-ok lookup in a literal table
@@ -422,7 +423,7 @@ func (ev *evaluator) eval(fr *evalFrame, v ssa.Value, depth int) (interface{}, b
 				if found {
 					return v, true
 				}
-				return zeroOf(x.Type())
+				return zeroValue(x.Type())
 			}
 			return nil, false
 		}
@@ -936,14 +937,19 @@ func (ev *evaluator) eval(fr *evalFrame, v ssa.Value, depth int) (interface{}, b
 				return strings.ToUpper(as), true
 			}
 			return strings.ToLower(as), true
-		case "math.Ceil", "math.Floor":
+		case "math.Ceil", "math.Floor", "math.Round", "math.Trunc":
 			a, ok := ev.eval(fr, x.Common().Args[0], depth+1)
 			f, isF := a.(float64)
 			if !ok || !isF {
 				return nil, false
 			}
-			if callee.Name() == "Ceil" {
+			switch callee.Name() {
+			case "Ceil":
 				return math.Ceil(f), true
+			case "Round":
+				return math.Round(f), true
+			case "Trunc":
+				return math.Trunc(f), true
 			}
 			return math.Floor(f), true
 		case "strconv.FormatInt":
@@ -1138,6 +1144,56 @@ func (ev *evaluator) runFrame(fr *evalFrame, start *ssa.BasicBlock, stop func(b 
 					}
 				}
 			case *ssa.Call:
+				// a call that changes a variable of this activation (a function literal over a captured variable, a helper
+				// handed a pointer to a local): followed here, once; later uses read what it returned
+				{
+					target := x.Common().StaticCallee()
+					if target == nil && !x.Common().IsInvoke() {
+						if fv, ok := ev.eval(fr, x.Common().Value, 0); ok {
+							if f, isF := fv.(ssa.Value); isF {
+								if fn2, isFn := funcValue(f); isFn {
+									switch t := fn2.(type) {
+									case *ssa.Function:
+										target = t
+									case *ssa.MakeClosure:
+										target, _ = t.Fn.(*ssa.Function)
+									}
+								}
+							}
+						}
+					}
+					if writesOutside(target) && ev.inline != nil && ev.inline(target) {
+						if fr.vals == nil {
+							fr.vals = map[ssa.Value]interface{}{}
+						}
+						delete(fr.vals, x)
+						if target.Signature.Results().Len() == 0 {
+							cc := x
+							if x.Common().StaticCallee() == nil {
+								if fv, ok := ev.eval(fr, x.Common().Value, 0); ok {
+									if f, isF := fv.(ssa.Value); isF {
+										cp := *x
+										cp.Call.Value = f
+										cc = &cp
+									}
+								}
+							}
+							if _, outcome := ev.runCallee(target, fr, cc); outcome == "panic" {
+								return nil, "panic"
+							} else if outcome != "return" {
+								ev.setFail("statement call not walkable: " + fname(target))
+								return nil, "fail"
+							}
+							break
+						}
+						if v, ok := ev.eval(fr, x, 0); ok {
+							fr.vals[x] = v
+						} else {
+							fr.vals[x] = unknownValue{}
+						}
+						break
+					}
+				}
 				if ev.visit == nil {
 					// a statement call of a helper that can panic (a validation helper) is walked for that outcome
 					callee := x.Common().StaticCallee()
@@ -1208,6 +1264,19 @@ func (ev *evaluator) runFrame(fr *evalFrame, start *ssa.BasicBlock, stop func(b 
 						fr.mem[memKey{fr.memBase(fa.X), fa.Field}] = unknownValue{}
 					}
 				}
+				// a variable of a calling activation, reached through a captured variable or a pointer argument
+				if _, isAl := x.Addr.(*ssa.Alloc); !isAl {
+					if ofr, al, ok := ev.cellOf(fr, x.Addr, 0); ok && ofr != fr {
+						v, okv := ev.eval(fr, x.Val, 0)
+						if !okv {
+							v = unknownValue{}
+						}
+						if ofr.mem == nil {
+							ofr.mem = map[memKey]interface{}{}
+						}
+						ofr.mem[memKey{al, cellField}] = v
+					}
+				}
 				// a local variable that lives in memory, or a part of a local struct or array
 				if al, steps := localPath(x.Addr); al != nil && (len(steps) > 0 || true) {
 					if _, isField := x.Addr.(*ssa.FieldAddr); !isField || len(steps) > 0 {
@@ -1224,7 +1293,23 @@ func (ev *evaluator) runFrame(fr *evalFrame, start *ssa.BasicBlock, stop func(b 
 						} else if nv, ok := ev.setPath(fr, fr.mem[key], al.Type().Underlying().(*types.Pointer).Elem(), steps, v); ok {
 							fr.mem[key] = nv
 						} else {
+							if os.Getenv("LUNARLINT_DEBUG_MEM") != "" {
+								fmt.Fprintf(os.Stderr, "setPath failed in %s: %s (value %v)\n", fname(fr.fn), x.String(), v)
+							}
 							fr.mem[key] = unknownValue{}
+						}
+					}
+				}
+			}
+			// a variable of a calling activation is read where the load stands, too
+			if ld, ok := ins.(*ssa.UnOp); ok && ld.Op == token.MUL {
+				if _, isAl := ld.X.(*ssa.Alloc); !isAl {
+					if ofr, al, ok := ev.cellOf(fr, ld.X, 0); ok && ofr != fr && ofr.mem != nil {
+						if cur, has := ofr.mem[memKey{al, cellField}]; has {
+							if fr.vals == nil {
+								fr.vals = map[ssa.Value]interface{}{}
+							}
+							fr.vals[ld] = cur
 						}
 					}
 				}
@@ -1792,6 +1877,30 @@ func (ev *evaluator) whyNot(fr *evalFrame, v ssa.Value, depth int) string {
 	if bo, isBin := v.(*ssa.BinOp); isBin {
 		out = ev.whyNot(fr, bo.X, depth+1) + ev.whyNot(fr, bo.Y, depth+1)
 	}
+	// an argument of an inlined helper: what the caller handed over; an element: the aggregate; a part of a lookup: the lookup
+	switch x := v.(type) {
+	case *ssa.Parameter:
+		if fr.parent != nil && fr.call != nil {
+			for i, q := range fr.fn.Params {
+				if q == x && i < len(fr.call.Common().Args) {
+					out = ev.whyNot(fr.parent, fr.call.Common().Args[i], depth+1)
+				}
+			}
+		}
+	case *ssa.Index:
+		out = ev.whyNot(fr, x.X, depth+1)
+	case *ssa.Extract:
+		if lk, isL := x.Tuple.(*ssa.Lookup); isL {
+			out = ev.whyNot(fr, lk.Index, depth+1)
+		}
+	case *ssa.Phi:
+		for _, e := range x.Edges {
+			if w := ev.whyNot(fr, e, depth+1); w != "" {
+				out = w
+				break
+			}
+		}
+	}
 	if out == "" {
 		out = " [" + v.Name() + " = " + v.String() + " is not evaluable]"
 	}
@@ -1800,6 +1909,63 @@ func (ev *evaluator) whyNot(fr *evalFrame, v ssa.Value, depth int) string {
 
 // runCallee reads an inlined library callee: loop-free ones by the walker, and (when ev.counted is set)
 // those with one closed-form loop as a table over the iteration number.
+// cellOf: the scalar local variable an address stands for — a cell of this activation, or of a calling one when the
+// address came in as a captured variable of a function literal or as a pointer argument.
+func (ev *evaluator) cellOf(fr *evalFrame, addr ssa.Value, depth int) (*evalFrame, *ssa.Alloc, bool) {
+	if depth > 4 || fr == nil {
+		return nil, nil, false
+	}
+	switch x := addr.(type) {
+	case *ssa.Alloc:
+		if isAggregate(x) {
+			return nil, nil, false
+		}
+		return fr, x, true
+	case *ssa.FreeVar:
+		if fr.call != nil && fr.parent != nil {
+			if mc, ok := fr.call.Common().Value.(*ssa.MakeClosure); ok {
+				for i, fv := range fr.fn.FreeVars {
+					if fv == x && i < len(mc.Bindings) {
+						return ev.cellOf(fr.parent, mc.Bindings[i], depth+1)
+					}
+				}
+			}
+		}
+	case *ssa.Parameter:
+		if _, isPtr := x.Type().Underlying().(*types.Pointer); isPtr && fr.call != nil && fr.parent != nil {
+			for i, q := range fr.fn.Params {
+				if q == x && i < len(fr.call.Common().Args) {
+					return ev.cellOf(fr.parent, fr.call.Common().Args[i], depth+1)
+				}
+			}
+		}
+	}
+	return nil, nil, false
+}
+
+// writesOutside: a function literal or unexported helper that stores through a captured variable or a pointer
+// parameter: calling it changes a variable of its caller, so its calls are followed where they stand, once.
+func writesOutside(fn *ssa.Function) bool {
+	if fn == nil || fn.Blocks == nil || !isLocalHelper(fn) {
+		return false
+	}
+	for _, b := range fn.Blocks {
+		for _, ins := range b.Instrs {
+			if st, ok := ins.(*ssa.Store); ok {
+				switch a := st.Addr.(type) {
+				case *ssa.FreeVar:
+					return true
+				case *ssa.Parameter:
+					if _, isPtr := a.Type().Underlying().(*types.Pointer); isPtr {
+						return true
+					}
+				}
+			}
+		}
+	}
+	return false
+}
+
 func (ev *evaluator) runCallee(callee *ssa.Function, fr *evalFrame, call *ssa.Call) ([]interface{}, string) {
 	return ev.run(callee, fr, call, nil, nil)
 }
